@@ -273,6 +273,9 @@ def getattr_(interp: Interp, st: St, obj: V, name: str):
                 r[1].tag = ("method", obj, name)
             yield s, r
         return
+    if obj.tag and obj.tag[0] == "setof" and name in ("issubset",):
+        yield st, ("ok", V("bound", (obj, name)))
+        return
     if obj.tag and obj.tag[0] == "exc_fields" and name in obj.tag[1]:
         yield st, ("ok", obj.tag[1][name])
         return
@@ -467,6 +470,20 @@ def m_add(interp, st, selfv, args, kwargs):
     interp.ctx.assume_note("elements added to a set are hashable and hash-consistent with ==")
     interp.list_append(st, selfv.d, args[0])
     yield st, ("ok", const(None))
+
+
+@handler(("$method", "issubset"))
+def m_issubset(interp, st, selfv, args, kwargs):
+    other = args[0]
+    if not (selfv.tag and selfv.tag[0] == "setof" and other.tag and other.tag[0] == "setof"):
+        raise Unsupported("issubset on unmodelled sets")
+    a, b = selfv.tag[1], other.tag[1]
+    i, j = z3.Int("si!"), z3.Int("sj2!")
+    interp.ctx.assume_note("set membership / subset is by py_eq (hash consistent with ==)")
+    e = z3.ForAll([i], z3.Implies(z3.And(i >= 0, i < T.F_len(a)),
+                                  z3.Exists([j], z3.And(j >= 0, j < T.F_len(b), T.F_pyeq(T.F_at(a, i), T.F_at(b, j))))),
+                  patterns=[T.F_at(a, i)])
+    yield st, ("ok", V("bool", e))
 
 
 @handler(("$method", "extend"))
@@ -1068,6 +1085,8 @@ def make_sequence(interp: Interp, st: St, pycls, seqval):
         st.assume(T.F_mk(T.F_ClsObj(interp.reg.cls(pycls)), src) == t)
     v = V("sym", t=t, ty=pycls)
     v.tag = ("fresh_container",)
+    if pycls in (set, frozenset) and seqval[0] == "term":
+        v.tag = ("setof", seqval[1])
     return v
 
 
